@@ -18,6 +18,8 @@ Ok(e) == /\ ~e.returned_while_write_blocked    \* a Write was still in progress:
          /\ e.returned                         \* but returns once the writer is released
          /\ e.complete_at_return               \* and then everything is in the output
          /\ e.final_equal_ref
+         /\ e.ref_matches_expected            \* and "everything" is what the messages of the input amount to (computed
+                                              \* from the real stream handler run sequentially, not from the application)
 
 Init == l = 1 /\ bad = <<>>
 Next == /\ l <= Len(Trace)
